@@ -523,3 +523,4 @@ fn c01_ops_canary_must_fail() {
 
 #[cfg(verif_replay)]
 include!("/verif/.cache/playback/operations.rs");
+
